@@ -1,4 +1,5 @@
 //! h_dyn: drivers for postcard-dyn (C17 agreement with the static codec and serde_json, C18 totality).
+mod corpus;
 use postcard_dyn::{from_slice_dyn, to_stdvec_dyn};
 use postcard_schema::schema::owned::OwnedDataModelType;
 use rand::{rngs::StdRng, Rng, SeedableRng};
@@ -114,6 +115,31 @@ fn dec(schema: &OwnedDataModelType, b: &[u8]) -> Result<Result<J, postcard_dyn_e
 }
 
 /// C17: shape/value -> static bytes, serde_json value, dynamic bytes, dynamic value
+fn zero_width_case(r: &mut StdRng) -> (Shape, Val) {
+    use Shape as S;
+    let elems: [(S, Val); 5] = [
+        (S::Unit, Val::Unit),
+        (S::UnitStruct, Val::Unit),
+        (S::Tuple(vec![]), Val::Seq(vec![])),
+        (S::Struct(vec![]), Val::Seq(vec![])),
+        (S::Tuple(vec![S::Unit, S::UnitStruct]), Val::Seq(vec![Val::Unit, Val::Unit])),
+    ];
+    let (es, ev) = elems[r.gen_range(0..elems.len())].clone();
+    let k = r.gen_range(1..=6);
+    let seq = (S::Seq(Box::new(es.clone())), Val::Seq(vec![ev.clone(); k]));
+    match r.gen_range(0..4) {
+        0 => seq,
+        1 => (S::Tuple(vec![seq.0, S::U8]), Val::Seq(vec![seq.1, Val::U8(r.gen())])),
+        2 => (S::Struct(vec![("seen".into(), seq.0), ("last".into(), S::U8)]), Val::Seq(vec![seq.1, Val::U8(r.gen())])),
+        _ => {
+            // string-keyed map with zero-width values, keys ascending
+            let mut keys: Vec<Vec<u8>> = (0..k).map(|j| vec![b'a' + j as u8]).collect();
+            keys.sort();
+            (S::Map(Box::new(S::Str), Box::new(es)), Val::Map(keys.into_iter().map(|kk| (Val::Str(kk), ev.clone())).collect()))
+        }
+    }
+}
+
 fn run_agree(a: &Args) {
     let n = a.num("n", 100);
     let seed = a.num("seed", 1);
@@ -123,13 +149,16 @@ fn run_agree(a: &Args) {
     let mut cnt = 0u64;
     for i in 0..n {
         vcommon::obs::mark_case(&marker, &format!("dyn:{seed}:{i}"));
+        // every 8th case: sequences and maps whose elements occupy no bytes on the wire (more elements than bytes
+        // left in the input), bare, last in a struct and followed by another field
+        let directed = if i % 8 == 5 { Some(zero_width_case(&mut r)) } else { None };
         let (s, tree) = loop {
-            let s = if i % 4 == 0 { gen::leaf_shape(&mut r) } else { gen::gshape(&mut r, 3) };
+            let s = if let Some((s, _)) = &directed { s.clone() } else if i % 4 == 0 { gen::leaf_shape(&mut r) } else { gen::gshape(&mut r, 3) };
             if let Some(t) = schema_of(&s) {
                 break (s, t);
             }
         };
-        let v = gen::gval(&mut r, &s, false);
+        let v = if let Some((_, v)) = directed { v } else { gen::gval(&mut r, &s, false) };
         let sv = SV(&s, &v);
         let static_bytes = match postcard::to_allocvec(&sv) {
             Ok(b) => b,
@@ -146,6 +175,15 @@ fn run_agree(a: &Args) {
         writeln!(out, "{}", json!({"op":"dyn","shape":s.to_json(),"value":v.to_json(),"schema":stree::tj(&tree),"static_bytes":static_bytes,
                                    "json":js(&jv),"dyn_bytes":dyn_bytes,"dyn_json":dyn_json})).unwrap();
         cnt += 1;
+    }
+    // concrete Rust types under their own T::SCHEMA
+    for _ in 0..a.num("corpus", 2) {
+        let mut lines = vec![];
+        corpus::run(&mut r, &mut lines);
+        for l in lines {
+            writeln!(out, "{l}").unwrap();
+            cnt += 1;
+        }
     }
     out.flush().unwrap();
     eprintln!("dyn: {cnt} events");
@@ -350,6 +388,18 @@ fn run_replay(a: &Args) {
     let mut out = std::io::BufWriter::new(std::fs::File::create(a.str("out", "/dev/stdout")).unwrap());
     for line in inp.lines().filter(|l| !l.trim().is_empty()) {
         let e: J = serde_json::from_str(line).expect("json");
+        if e["op"] == "dyn_t" {
+            // concrete types are regenerated (seed 1) and matched by type name and static bytes, else by type name
+            let mut r = StdRng::seed_from_u64(1 ^ 0xd7);
+            let mut lines = vec![];
+            for _ in 0..2 {
+                corpus::run(&mut r, &mut lines);
+            }
+            let parsed: Vec<J> = lines.iter().map(|l| serde_json::from_str(l).unwrap()).collect();
+            let hit = parsed.iter().find(|x| x["ty"] == e["ty"] && x["static_bytes"] == e["static_bytes"]).or_else(|| parsed.iter().find(|x| x["ty"] == e["ty"] && x["tree"]["c"] == e["tree"]["c"] && x["tree"]["i"] == e["tree"]["i"]));
+            writeln!(out, "{}", hit.unwrap_or(&e)).unwrap();
+            continue;
+        }
         let tree = stree::t_from(&e["schema"]);
         let schema: OwnedDataModelType = stree::lt(&tree).into();
         let bytes = |j: &J| -> Vec<u8> { j.as_array().unwrap().iter().map(|x| x.as_u64().unwrap() as u8).collect() };
